@@ -74,6 +74,10 @@ func VerifC03Script() {
 	compressed := verifParam("compressed", 0) == 1
 	var script rb
 	srvBlock := func(code byte, cols []rCol) {
+		// the reference grammar frames exactly Data, Totals and Extremes on a compressed connection; the
+		// client must agree on which packets it reads through the decompressor (asserted on the real
+		// predicate, so that a disagreement is reported independently of the uninterpreted checksum's value)
+		verifAssert(proto.ServerCode(code).Compressible(), "framed-packet-read-through-decompressor")
 		if !compressed {
 			script.srvData(code, cols, v)
 			return
@@ -131,6 +135,7 @@ func VerifC03Script() {
 			script.str(verifStr("tc1", 1))
 			script.str(verifStr("tc2", 1))
 		case pkLog:
+			verifAssert(vNot(vOr(proto.ServerCodeLog.Compressible(), proto.ServerProfileEvents.Compressible())), "telemetry-packets-read-unframed")
 			text := verifStr("log.text", 1)
 			script.uv(10)
 			script.str("")
